@@ -613,6 +613,7 @@ fn main() {
                         }
                     }
                     time_passes(&sys.e, &mut r, 3000);
+                    time_passes_long(&sys.e, &mut r);
                     let op = random_op(&mut r, &obs, fill);
                     let ev = sys.step(&op);
                     obs = ev["obs"].clone();
